@@ -66,7 +66,7 @@ func (s *SubscriptionService) CreateSubscription(sc *uasc.SecureChannel, r ua.Re
 	sub.Session = s.srv.Session(r.Header())
 	sub.Channel = sc
 	sub.ID = newsubid
-	sub.RevisedPublishingInterval = req.RequestedPublishingInterval
+	sub.RevisedPublishingInterval = revisePublishingInterval(req.RequestedPublishingInterval)
 	sub.RevisedLifetimeCount = req.RequestedLifetimeCount
 	sub.RevisedMaxKeepAliveCount = req.RequestedMaxKeepAliveCount
 
@@ -84,7 +84,7 @@ func (s *SubscriptionService) CreateSubscription(sc *uasc.SecureChannel, r ua.Re
 			AdditionalHeader:   ua.NewExtensionObject(nil),
 		},
 		SubscriptionID:            uint32(newsubid),
-		RevisedPublishingInterval: req.RequestedPublishingInterval,
+		RevisedPublishingInterval: sub.RevisedPublishingInterval,
 		RevisedLifetimeCount:      req.RequestedLifetimeCount,
 		RevisedMaxKeepAliveCount:  req.RequestedMaxKeepAliveCount,
 	}
@@ -293,8 +293,27 @@ func NewSubscription() *Subscription {
 	}
 }
 
+// The publishing intervals in milliseconds the server grants. time.NewTicker
+// panics for a non-positive duration, and a huge value overflows time.Duration.
+const (
+	minPublishingInterval = 1.0
+	maxPublishingInterval = 24 * 60 * 60 * 1000.0
+)
+
+// revisePublishingInterval returns the publishing interval in milliseconds
+// the server uses for a requested interval.
+func revisePublishingInterval(requested float64) float64 {
+	if requested > maxPublishingInterval {
+		return maxPublishingInterval
+	}
+	if requested >= minPublishingInterval {
+		return requested
+	}
+	return minPublishingInterval
+}
+
 func (s *Subscription) Update(req *ua.ModifySubscriptionRequest) {
-	s.RevisedPublishingInterval = req.RequestedPublishingInterval
+	s.RevisedPublishingInterval = revisePublishingInterval(req.RequestedPublishingInterval)
 	s.RevisedLifetimeCount = req.RequestedLifetimeCount
 	s.RevisedMaxKeepAliveCount = req.RequestedMaxKeepAliveCount
 }
